@@ -758,11 +758,12 @@ func TestVerifC16(t *testing.T) {
 			"d2_byte_strings": hs.d2Fresh, "d2_fresh_outcomes": hs.freshObs, "decodes": hs.decodes}
 	}
 
-	var refillCases, refillValidateDiffers int64
+	var refillCases int64
+	refillOutcomes := map[string]int64{}
 	for _, ch := range chains {
 		n, d := runRefill(ch, nil, func(sig, what string, replay any) { rep.Violation(sig, what, replay) })
 		refillCases += n
-		refillValidateDiffers += d
+		mergeMap(refillOutcomes, d)
 	}
 
 	sh := &shared{distinct: map[string]struct{}{}, msgByBlk: map[string]msgEntry{}, wireSeen: map[string]struct{}{}, samples: map[string]any{}}
